@@ -234,7 +234,7 @@ def run(ctx):
     entries = [methods[m].path for m in util.INVERSE_METHODS]
     n, nd, na = census.census(ctx, 'R01.7', entries)
     ctx.extra['census'] = {'sites': n, 'discharged_by_bounds_or_guards': nd, 'allow_listed': na}
-    ctx.floor('R01.7 census sites', n, 250)
+    ctx.floor('R01.7 census sites', n, 120)      # 276 on the confirmed tree; rewrites that index less (iterators, helpers) legitimately lower it
 
 
 def _arg_local(t, i):
